@@ -3,6 +3,7 @@ import Lean.Data.Json
 import SqlLineage.Model.Runner
 import SqlLineage.IO.Graph
 import SqlLineage.Spec.Tables
+import SqlLineage.Spec.Columns
 
 namespace SqlLineage.IO.Sql
 open Lean SqlLineage Ast
@@ -219,7 +220,10 @@ def handleSql (j : Json) : Except String Json := do
   let env : Walk.Env := ⟨c.cfgDefault, c.importDefault, Holder.ProvView.none, c.ro, 0⟩
   let spec := ss.map (fun s => Json.mkObj [
     ("reads", jstrs (isort (Spec.reads env s))), ("writes", jstrs (isort (Spec.writes env s))),
-    ("deviations", jstrs (Spec.deviations s))])
+    ("deviations", jstrs (Spec.deviations s)),
+    ("colflow", match Spec.colflow env s with
+      | some ps => .arr (ps.map (fun p => Json.arr #[.str p.1, .str p.2])).toArray
+      | none => .null)])
   pure <| Json.mkObj [("sql", jstrs rendered), ("types", jstrs (ss.map Walk.stmtType)), ("out", out), ("spec", .arr spec.toArray)]
 
 /-- `{"cmd":"render","stmts":[..],"upper":bool}` -/
